@@ -33,7 +33,7 @@ CONSTANTS
   Masks,       \* interest codes an add may use (1 = R, 2 = W, 4 = C, sums)
   ETs,         \* subset of {0, 1}: trigger modes an add may use (1 = EV_ET)
   Keeper,      \* fds (slots) whose file is also held by a second descriptor
-  Kinds,       \* sequence: kind of each fd slot ("sp" | "tcp" | "pr" | "pw")
+  K1, K2, K3,  \* kind of fd slot 1, 2, 3 ("sp" | "tcp" | "pr" | "pw")
   Acts,        \* names of the actions the generator may use
   D,           \* bound on Len(hist)
   AvoidKnown   \* TRUE: exclude the trigger of known finding "changelist-stale-et" from generation
@@ -253,7 +253,7 @@ WaitLegal(S) ==
    of a pipe, "pw" write end of a pipe.  The abstract socket state only steers
    the generator and defines `edge` (genuine new transitions, for edge-triggered
    events); what holds on an fd is always taken from the poll(2) probe. *)
-Kind(f) == Kinds[f]
+Kind(f) == CASE f = 1 -> K1 [] f = 2 -> K2 [] OTHER -> K3
 EnvOps == {"pw", "drain", "fill", "pdrain", "pshut", "pclose", "prst"}
 EnvLegal(S, a, f) ==
   LET k == S.sock[f] IN
@@ -370,7 +370,7 @@ Env ==
   /\ \E f \in Fds, a \in EnvOps :
        /\ EnvLegal(st, a, f)
        /\ st' = EnvStep(st, a, f)
-       /\ hist' = Append(hist, [a |-> a, fd |-> f, o |-> [x |-> [_any |-> TRUE]]])
+       /\ hist' = Append(hist, [a |-> a, fd |-> f, o |-> [r |-> [_any |-> TRUE]]])
 
 Wait ==
   /\ "wait" \in Acts /\ WaitLegal(st)
